@@ -216,11 +216,8 @@ theorem other_ops_preserve_held (e : Env) (l l' : Ledger) (s s' : State) (op : O
     split at h; · cases h
     injection h with h; injection h with _ h2; subst h2
     have h0 : SameColl s s0 := by
-      split at hpre
-      · split at hpre
-        · cases hpre
-        · injection hpre with hpre; subst hpre; exact sameColl_delTask _ _
-      · injection hpre with hpre; subst hpre; exact SameColl.refl _
+      ok_cases hpre
+      all_goals (injection hpre with hpre; subst hpre; first | exact sameColl_delTask _ _ | exact SameColl.refl _)
     exact (SameColl.trans h0 (SameColl.trans (sameColl_setTask _ _) (sameColl_addClosing _ _ _))).held_eq a d
   case respond c f sc o =>
     simp only [stepE] at h
